@@ -98,4 +98,72 @@ example :
     guardPn (step ([Op.begin, .pn, .frame, .trivial, .abandon].foldl step s) .begin) = some (1, .ok (.u16 1)) := by
   decide
 
+/-- In every reachable state, the `encode` inside `NewPacketGuard::pn()` cannot hit the `pn - largest_acked`
+underflow nor the `* 2` overflow (although `update_largest` accepts an ACK of the next unsent number). -/
+theorem guard_pn_never_underflows (ops : List Op) (pn : Nat) (r : Res PacketNumber)
+    (h : guardPn (ops.foldl step init) = some (pn, r)) :
+    r ≠ .panic .subOverflow ∧ r ≠ .panic .mulOverflow ∧ (ops.foldl step init).j.la ≤ pn ∧ pn ≤ 2 ^ 62 := by
+  have inv := fold_baseInv ops init init_baseInv
+  have h1 := inv.la_le
+  have h2 := inv.bound
+  simp only [varintMax] at h2
+  unfold guardPn at h
+  split at h
+  · simp only [Option.some.injEq, Prod.mk.injEq] at h
+    obtain ⟨hp, hr⟩ := h
+    subst hp
+    refine ⟨?_, ?_, h1, by omega⟩
+    · rw [← hr]; unfold encode
+      have : ¬ (ops.foldl step init).j.largest < (ops.foldl step init).j.la := by omega
+      simp only [this, if_false]
+      (repeat' split) <;> simp
+    · rw [← hr]; unfold encode
+      have a : ¬ (ops.foldl step init).j.largest < (ops.foldl step init).j.la := by omega
+      have b : ¬ u64Size ≤ ((ops.foldl step init).j.largest - (ops.foldl step init).j.la) * pnRangeFactor := by
+        simp only [u64Size, pnRangeFactor]; omega
+      simp only [a, b, if_false]
+      (repeat' split) <;> simp
+  · cases h
+example : guardPn ([Op.ackLargest 0, .begin].foldl step init) = some (0, .ok (.u16 0)) := by decide
+
+/-- hypothesis of `queue_records_agree`: no guard was dropped after `record_frame` (`leaked` counts the frames
+such guards left in `queue`; `NewPacketGuard` has no `Drop` impl that would take them out again). -/
+def NoAbandonAfterRecord (ops : List Op) : Prop := (ops.foldl step init).leaked = 0
+
+instance (ops : List Op) : Decidable (NoAbandonAfterRecord ops) := by unfold NoAbandonAfterRecord; infer_instance
+
+/-- Over all histories every frame in `queue` is accounted for: by a record, by a leak, or by the live guard. -/
+theorem queue_records_account (ops : List Op) :
+    let s := ops.foldl step init
+    s.poisoned = none → sumFrames s.j.recs + s.leaked = base s ∧ base s ≤ s.j.queueLen :=
+  (fold_qinv ops init init_qinv).acct
+
+/-- DESIGN `queue_records_agree`: Σ nframes = queue length (between guards), if no guard was abandoned after
+`record_frame`. -/
+theorem queue_records_agree (ops : List Op) (h : NoAbandonAfterRecord ops) :
+    (ops.foldl step init).poisoned = none → (ops.foldl step init).guard = none →
+      sumFrames (ops.foldl step init).j.recs = (ops.foldl step init).j.queueLen := by
+  intro hp hg
+  obtain ⟨h1, _⟩ := (fold_qinv ops init init_qinv).acct hp
+  have h0 : (ops.foldl step init).leaked = 0 := h
+  simp only [base, hg] at h1
+  omega
+
+/-- …and without that hypothesis it is false (same on the real journal: harness `C07j` fixed case 2, `recs=- q=1`). -/
+theorem queue_records_agree_fails :
+    ¬ (∀ ops : List Op, (ops.foldl step init).poisoned = none → (ops.foldl step init).guard = none →
+        sumFrames (ops.foldl step init).j.recs = (ops.foldl step init).j.queueLen) := by
+  intro h
+  have := h [.begin, .frame, .abandon]
+  revert this
+  decide
+
+example : NoAbandonAfterRecord [.begin, .frame, .frame, .build 1 1, .begin, .trivial, .abandon, .begin, .frame, .build 2 2, .acked 0] ∧
+    sumFrames ([Op.begin, .frame, .frame, .build 1 1, .begin, .trivial, .abandon, .begin, .frame, .build 2 2, .acked 0].foldl step init).j.recs = 1 := by
+  decide
+
+/-- `SentJournal::resize`'s `queue.drain(..f)` is always in range (no panic inside `Drop for SentRotateGuard`). -/
+theorem resize_never_panics (ops : List Op) : (ops.foldl step init).poisoned ≠ some .drain :=
+  (fold_qinv ops init init_qinv).noDrain
+
 end GmQuic.SentJournal
